@@ -33,6 +33,14 @@ def check_c07(ctx, evs, tokens, obs, sent_flags, steps):
                 ctx.counterexample("spurious-cancel", dict(events=tokens, step=k), "cancel(%d)" % i, tokens[k][:24],
                                    "a sender was cancelled by an event that is not its own cancellation")
         completed.update(int(c[4:]) for c in comps)
+        if len(data_writes) > 1:
+            ctx.counterexample("two-frames-in-one-step", dict(events=tokens, step=k), "at most one data frame per event", len(data_writes),
+                               "two data frames were written without an acknowledgement, expiry or cancellation in between")
+        for raw in data_writes:
+            if ("done%d" % raw[13]) in comps:
+                ctx.counterexample("ack-wait-skipped", dict(events=tokens, step=k), "the sender waits for ACK / expiry",
+                                   dict(event=tokens[k][:24], completions=comps),
+                                   "a sender returned in the very step in which its frame was written: the acknowledgement wait did not take place")
         for raw in data_writes:
             sender = raw[13]
             if prev_sender is not None and prev_sender not in completed:
